@@ -297,14 +297,18 @@ Example C06_lexed_example :
   end.
 Proof. vm_compute. auto. Qed.
 
-(* ---------- the comment quirk (why comments are guarded in the statement grammar) ---------- *)
+(* ---------- a documented fact about comments (not a refutation of the property) ----------
+   Comments between statements are layout for C06: the property speaks of constructs, and the
+   correspondence check compares trees modulo comment nodes.  The declarative statement grammar of the
+   proofs derives a comment node only where the parser keeps one; the two examples record where it
+   does and where it does not. *)
 
 (* a comment directly in front of a block statement is swallowed by the block parser's first
    exp_token (which skips comments): the tree has NO comment node
    "proc P\n;c\nloop\nendloop\nendproc\n" *)
 Definition quirk_text : list N :=
   [112;114;111;99;32;80;10;59;99;10;108;111;111;112;10;101;110;100;108;111;111;112;10;101;110;100;112;114;111;99;10].
-Example C06_refuted_comment_before_block :
+Example C06_comment_node_dropped_before_block :
   match fst (parse_gold (txt quirk_text)) with
   | Ok [] (Node KAstRoot _ _ _ _ [Node KAstProcedure _ _ _ _ [_; Node KAstMethodBody _ _ _ _ [Node KAstLoopBlock _ _ _ _ []]]]) => True
   | _ => False
@@ -350,5 +354,5 @@ Print Assumptions C06_expr_derivable.
 Print Assumptions C06_file_derivable.
 Print Assumptions C06_lexed_tokens_ordered.
 Print Assumptions C06_lexed_example.
-Print Assumptions C06_refuted_comment_before_block.
+Print Assumptions C06_comment_node_dropped_before_block.
 Print Assumptions C06_comment_kept_before_simple.
